@@ -759,8 +759,16 @@ impl Sys for RawSys {
             if !pre.holes.is_empty() {
                 s.push_str("holes;");
             }
-            if self.reader.is_some() {
+            if let Some(h) = &self.reader {
                 s.push_str("reader_held;");
+                let now = pre
+                    .regions
+                    .iter()
+                    .find(|r| r.name == NAMES[h.name as usize])
+                    .map(|r| r.start);
+                if now != Some(h.reader.verif_start()) {
+                    s.push_str("reader_region_relocated;");
+                }
             }
             s
         } else {
